@@ -641,6 +641,11 @@ func verifyLoopHeader(c *Ctx, f *ssa.Function, v *ssa.Call) *ssa.BasicBlock {
 		if !blocks[v.Block()] {
 			continue
 		}
+		// a counted loop `for i := c0; i < K && i < len(S); i++ { Verify }`: every test between the header and the
+		// Verify block is true in the first iteration (K > c0 is a constant fact, len(S) > c0 is proven at the entry)
+		if hh := countedVerifyLoop(c, f, h, v); hh != nil {
+			return hh
+		}
 		// range index: phi(-1, +1), compared with len(S)
 		var inc *ssa.BinOp
 		var lenOf ssa.Value
@@ -1462,4 +1467,72 @@ func c08SKEKey(c *Ctx) {
 			c.Check(where == "", rule, fname(f), "a signature that does not verify is an error", "", where, v.Pos())
 		}
 	}
+}
+
+func countedVerifyLoop(c *Ctx, f *ssa.Function, h *ssa.BasicBlock, v *ssa.Call) *ssa.BasicBlock {
+	var ind induction
+	found := false
+	for _, p := range phisOf(h) {
+		if iv, ok := inductionOf(p); ok && iv.step == 1 {
+			ind, found = iv, true
+			break
+		}
+	}
+	if !found {
+		return nil
+	}
+	lb := &LB{p: c.P, f: f, UsedContracts: map[string]bool{}}
+	b := h
+	for steps := 0; steps < 4; steps++ {
+		if b == v.Block() {
+			return h
+		}
+		ifi, ok := lastIf(b)
+		if !ok {
+			if len(b.Succs) == 1 {
+				b = b.Succs[0]
+				continue
+			}
+			return nil
+		}
+		// only the test may live in a block on the way (phis, len, comparison)
+		for _, in := range b.Instrs {
+			switch x := in.(type) {
+			case *ssa.Phi, *ssa.BinOp, *ssa.If, *ssa.DebugRef:
+			case *ssa.Call:
+				if bi, isBi := x.Call.Value.(*ssa.Builtin); !isBi || bi.Name() != "len" {
+					return nil
+				}
+			default:
+				return nil
+			}
+		}
+		cmp, ok := ifi.Cond.(*ssa.BinOp)
+		if !ok || cmp.Op != token.LSS || cmp.X != ssa.Value(ind.phi) {
+			return nil
+		}
+		if k, isK := constInt(cmp.Y); isK {
+			if k <= ind.init {
+				return nil
+			}
+		} else {
+			var lenOf ssa.Value
+			if !isLenOf(cmp.Y, func(x ssa.Value) bool { lenOf = x; return true }) {
+				return nil
+			}
+			for _, p := range h.Preds {
+				if h.Dominates(p) {
+					continue
+				}
+				if !lb.prove([]cons{ge(lb.lenLin(lenOf), linConst(ind.init+1))}, p, nil, map[lvar]lin{}, 0) {
+					return nil
+				}
+			}
+		}
+		b = b.Succs[0]
+	}
+	if b == v.Block() {
+		return h
+	}
+	return nil
 }
